@@ -39,6 +39,8 @@ func runC12(c *eng.Ctx) {
 	p := c.P
 	unknownSelectFieldFailsTheLeaf(c)
 	everyReceiverIsAnswered(c)
+	groupingWaitOnlyWhenACollectorRuns(c)
+	missingShardIsSkippedNotRefused(c)
 	rowsInsideFirstRowsFamilyRange(c)
 	leafShipsEveryGroup(c)
 	responseErrorAlwaysExamined(c)
